@@ -70,6 +70,11 @@ func (f *faultStore) Write(ctx context.Context, path string, data []byte) error 
 	return f.MemBackend.Write(ctx, path, data)
 }
 func (f *faultStore) noteFailed() { f.mu.Lock(); f.failed++; f.mu.Unlock() }
+func (f *faultStore) failedCount() int {
+	f.mu.Lock()
+	defer f.mu.Unlock()
+	return f.failed
+}
 func (f *faultStore) set(b bool) { f.mu.Lock(); f.fail = b; f.mu.Unlock() }
 
 const c07Hour = int64(3600) * 1_000_000
@@ -246,6 +251,9 @@ func c07Scenarios() []sched.Scenario {
 					sys = c07Start(store, walDir, true)
 				}
 				for _, e := range sp.script {
+					// the events of a script are not atomic with respect to the background threads: a worker may
+					// run between two events (e.g. flush between "storage fails" and the next write)
+					vsched.Point("script-event")
 					switch c07Alphabet[e].kind {
 					case "W":
 						write(c07Base + k + 1)
@@ -268,12 +276,24 @@ func c07Scenarios() []sched.Scenario {
 					}
 				}
 				// drain: storage works again; maintenance runs twice; graceful shutdown; restart with recovery; final flush
+				vsched.Point("script-end")
 				store.set(false)
 				tick()
 				tick()
-				restart()
-				sys.buf.FlushAll(context.Background())
 				sys.coord.Shutdown()
+				// restart cycles until one completes without a failed storage write: an adversarial schedule can
+				// make a graceful shutdown cancel the very flush that replays the WAL (the rows then stay in the
+				// retained WAL, which is not a loss); "eventually stored" is judged after a clean cycle. The
+				// deviation budget is finite, so a clean cycle is reached (6 is never hit within bound 2).
+				for i := 0; ; i++ {
+					n0 := store.failedCount()
+					sys = c07Start(store, walDir, true)
+					sys.buf.FlushAll(context.Background())
+					sys.coord.Shutdown()
+					if store.failedCount() == n0 || i == 6 {
+						break
+					}
+				}
 			}
 			check := func() sched.Outcome {
 				vclock.Uninstall()
@@ -413,7 +433,7 @@ func verifC07() {
 	run.Coverage["explanation"] = "states = distinct (script, observable outcome) pairs; every schedule is a run of the real components; the maintenance tick body and the wal-purge hook are lifted out of cmd/arc/main.go by the overlay generator at build time"
 	run.Assume("buffer size 1, flush queue 1, one flush worker (saturation reachable with two writes); storage = in-memory backend whose Write is a scheduling point and can be switched to fail; WAL files on tmpfs")
 	run.Assume("component registration (names, priorities) replicates main.go; hook body, hook priority and tick body are taken from main.go itself")
-	run.Assume("every script ends with: storage works, two maintenance ticks, graceful shutdown, restart with startup recovery, explicit flush, shutdown")
+	run.Assume("every script ends with: storage works, two maintenance ticks, graceful shutdown, then {restart with startup recovery, explicit flush, graceful shutdown} repeated until a cycle has no failed storage write (a shutdown may itself cancel an in-flight flush; the WAL is then retained and replayed by the next cycle)")
 	os.RemoveAll(c07Root)
 	run.Finish()
 }
